@@ -284,6 +284,11 @@ theorem depth_linear (fuel : Nat) (inp : Bytes) (t : Tmpl) (r : Bytes) (h : decI
     2 ≤ inp.length - r.length := by
   have := decItem_consumes fuel inp t r h; omega
 
+/-- decoding keeps nothing between calls and shares nothing between goroutines: the packages hold
+no package-level variable (an intern table or memo would retain memory beyond the call that
+allocated it, and make concurrent decoders abort the process) -/
+theorem facts_no_package_state : Generated.pkgVars = [] := by decide
+
 /-! ### non-vacuity: a 6-byte item declaring 16 MB requests nothing -/
 example : allocItem 10 [0x43, 0xFF, 0xFF, 0xFF, 1, 2] = (0, none) := by decide
 example : allocItem 10 [0x03, 0xFF, 0xFF, 0xFF] = (0, none) := by decide
